@@ -13,6 +13,7 @@ use crate::{
         RuntimeError, RuntimeResult,
         context::{ThreadContext, TransactionLogger},
         eval::eval_literal_expr,
+        validator::ValidationError,
     },
     schema::{
         DatabaseItem,
@@ -545,7 +546,56 @@ impl DdlExecutor {
         let table_name = relation.name().to_string();
         let action = self.alter_action_instr_from_bound(&stmt.action, relation.schema())?;
 
+        if let AlterActionInstr::AlterColumn {
+            column_idx,
+            action: AlterColumnActionInstr::SetNotNull { .. },
+        } = &action
+        {
+            self.ensure_column_has_no_nulls(&relation, *column_idx)?;
+        }
+
         Ok(AlterTableInstr::new(stmt.table_id, table_name, action))
+    }
+
+    /// SET NOT NULL is only valid when no visible row holds a NULL in the column.
+    fn ensure_column_has_no_nulls(
+        &self,
+        relation: &Relation,
+        column_idx: usize,
+    ) -> RuntimeResult<()> {
+        let snapshot = self.ctx.snapshot();
+        let schema = relation.schema();
+        let mut table_btree = self.ctx.build_tree(relation.root());
+
+        if table_btree.is_empty()? {
+            return Ok(());
+        }
+
+        let positions: Vec<crate::tree::accessor::BtreePagePosition> = table_btree
+            .iter_forward()?
+            .filter(|p| p.is_ok())
+            .map(|f| f.unwrap())
+            .collect();
+
+        for pos in positions {
+            let Some(row) = table_btree.get_row_at(pos, schema, &snapshot)? else {
+                continue;
+            };
+
+            if column_idx < row.len() && row[column_idx].is_null() {
+                let column_name = schema
+                    .column(column_idx)
+                    .map(|c| c.name().to_string())
+                    .unwrap_or_default();
+                return Err(ValidationError::NonNullConstraintViolated(DatabaseItem::Column(
+                    relation.name().to_string(),
+                    column_name,
+                ))
+                .into());
+            }
+        }
+
+        Ok(())
     }
 
     fn alter_action_instr_from_bound(
